@@ -147,6 +147,7 @@ class State(object):
         self.heap = {}
         self.locals = {}
         self.pc = []
+        self.pc_ids = set()
         self.nfresh = 0
         self.alloc = z3.Int('alloc0')
         self.alloc0 = self.alloc
@@ -164,6 +165,7 @@ class State(object):
         self.frames = None       # [(targets, alloc threshold)]: function frame, then enclosing loops
         self.pending_writes = []
         self.call_log = []
+        self.yielded = False     # a yield point has been passed on this path (shared state was havocked)
         self.trace = []
         self.ghost = {}
         self.scope_depth = None
@@ -178,6 +180,10 @@ class State(object):
     def assume(self, b):
         if z3.is_true(b):
             return
+        i = b.get_id()
+        if i in self.pc_ids:
+            return              # the same fact (hash-consed term) is already part of the path condition
+        self.pc_ids.add(i)
         self.pc.append(b)
 
     def feasible(self, extra):
